@@ -19,7 +19,16 @@ From Coq Require Import Lia.
 (** ** Scope and what the builders deliver *)
 
 Definition scope17 (I : instance) (b : nat) : Prop :=
-  positive I /\ nonempty_jobs I /\ (b = 0%nat -> nodup_machines I).
+  valid I /\ has_machines I /\ nonempty_jobs I /\ (b = 0%nat -> nodup_machines I).
+
+(** the property's "positive durations" is more than the proofs need *)
+Lemma scope17_positive I b :
+  positive I -> nonempty_jobs I -> (b = 0%nat -> nodup_machines I) -> scope17 I b.
+Proof.
+  intros Hp Hn Hd. split; [|split; [|split; assumption]].
+  - intros j p o Ho. destruct (Hp _ _ _ Ho). lia.
+  - intros j p o Ho. destruct (Hp _ _ _ Ho). assumption.
+Qed.
 
 Definition spec_edgesP (b : nat) (I : instance) : nat -> nat -> etype -> Prop :=
   match b with
@@ -37,7 +46,7 @@ Record built (I : instance) (b : nat) (g0 : graph) : Prop := {
 
 Lemma build_built I b g0 : scope17 I b -> build_by_code b I = Some g0 -> built I b g0.
 Proof.
-  intros (Hpos & Hne & Hnd) E. destruct b as [|[|[|[|b]]]]; simpl in E; try discriminate.
+  intros (_ & _ & Hne & Hnd) E. destruct b as [|[|[|[|b]]]]; simpl in E; try discriminate.
   - destruct (disjunctive_char I Hne (Hnd eq_refl)) as (G & w & E' & Hs & He).
     rewrite E in E'. inversion E'; subst G. constructor; [lia|eauto|exact He].
   - destruct (agent_task_char I) as (G & w & E' & Hs & He).
@@ -288,7 +297,7 @@ Section Sets.
 
   Variable g0 : graph.
   Hypothesis Hb : built I b g0.
-  Hypothesis Hpos : positive I.
+  Hypothesis Hmach : has_machines I.
 
   Lemma edge_op_machine u v : (1 <= b)%nat -> op_machine I u v -> In (u, v, ENone) (g_edges g0).
   Proof.
@@ -355,7 +364,7 @@ Section Sets.
             split; [split; eauto|]. split; [apply (on_machine_In m j p o Ho); exact Hin|reflexivity]. }
       destruct HP as [(j & p & [[o Ho] Hp] & ->)|[(H0 & _)|[(_ & m & j & p & [[o Ho] Hp] & Hon & ->)
                      |(H2 & j & p & [[o Ho] Hp] & ->)]]]; try lia.
-      + destruct (Hpos _ _ _ Ho) as [_ Hne]. destruct (machines o) as [|m ms] eqn:Em; [contradiction|].
+      + pose proof (Hmach _ _ _ Ho) as Hne. destruct (machines o) as [|m ms] eqn:Em; [contradiction|].
         destruct (Hom j p o m Ho Hp ltac:(rewrite Em; left; reflexivity)) as (e & He & Hs & _ & P1 & P2).
         exists e. split; [exact He|]. split; [apply touches_iff; left; exact Hs|]. split; assumption.
       + apply (on_machine_In m j p o Ho) in Hon.
@@ -389,3 +398,660 @@ Section Sets.
       rewrite (Hiso e Hin) in Ht. discriminate.
   Qed.
 End Sets.
+
+(** ** Small facts about the dispatcher state *)
+
+Lemma jnext_mono I d r x o row : Inv I d -> accepted I d r x o row ->
+  forall j, (nthN (jnext d) j <= nthN (jnext (apply_sop I d x row)) j)%nat.
+Proof.
+  intros Hi Ha j. unfold apply_sop, nthN. cbn [jnext].
+  destruct (Nat.eq_dec (s_job x) j) as [<-|Hne].
+  - destruct (Nat.lt_ge_cases (s_job x) (length (jnext d))) as [Hl|Hg].
+    + rewrite nth_upd_eq by exact Hl. lia.
+    + rewrite (nth_overflow (upd _ _ _)) by (rewrite length_upd; exact Hg).
+      rewrite nth_overflow by exact Hg. lia.
+  - rewrite nth_upd_neq by exact Hne. lia.
+Qed.
+
+Lemma In_p_sched I d j p : In (j, p) (p_sched I d) ->
+  (exists o, get_op I j p = Some o) /\ (p < nthN (jnext d) j)%nat.
+Proof.
+  unfold p_sched, scheduled_ops. rewrite In_scheduled_from, Nat.sub_0_r.
+  intros (_ & H2 & H3 & H4 & H5). split; [apply get_op_of_pos_lt; exact H5|exact H4].
+Qed.
+
+Lemma In_p_completed_sched I fs d k : In k (p_completed I fs d) -> In k (p_sched I d).
+Proof. unfold p_completed. rewrite filter_In. tauto. Qed.
+
+Lemma completed_init I fs : p_completed I fs (init_d I) = [].
+Proof.
+  destruct (p_completed I fs (init_d I)) as [|[j p] t] eqn:E; [reflexivity|]. exfalso.
+  assert (H : In (j, p) (p_completed I fs (init_d I))) by (rewrite E; left; reflexivity).
+  apply In_p_completed_sched, In_p_sched in H. destruct H as [_ H].
+  unfold nthN in H. simpl in H. rewrite nth_repeat_default in H. lia.
+Qed.
+
+Lemma unsched_key_In I d j p : Inv I d -> (unsched_key I d j p <-> In (j, p) (unscheduled_ops I d)).
+Proof. intros Hi. symmetry. apply In_unscheduled. exact Hi. Qed.
+
+(** ** The invariant along a request list *)
+
+Section Run.
+  Variable I : instance.
+  Variable b : nat.
+  Variable g0 : graph.
+  Hypothesis Hsc : scope17 I b.
+  Hypothesis Hb : built I b g0.
+  Variable fs : list fname.
+  Variables rm_m rm_j : bool.
+  Let N := num_ops I.
+  Let M := num_machines I.
+  Let J := num_jobs I.
+
+  Definition has_ic (u : rgu) (c : iscomp) : Prop := rgu_iscomp (u_deps u) (u_ic u) = Some c.
+
+  Record RInv (d : dstate) (u : rgu) : Prop := {
+    r_rm_m : u_rm_m u = rm_m;
+    r_rm_j : u_rm_j u = rm_j;
+    r_ic : rm_m || rm_j = true ->
+           exists c, has_ic u c /\ (rm_m = true -> ic_m c = true) /\ (rm_j = true -> ic_j c = true) /\
+                     ic_inv I d c;
+    r_graph : exists L,
+        u_graph u = fold_left remove_if_present L g0 /\
+        (forall n, In n L -> justified I b d n) /\
+        (forall k, In k (p_completed I fs d) -> In (kid I k) L) /\
+        (rm_m = true -> (1 <= b)%nat -> forall c m, has_ic u c -> (m < M)%nat ->
+           nth m (ic_flag_m c) false = true -> In (N + m)%nat L) /\
+        (rm_j = true -> (2 <= b)%nat -> forall c j, has_ic u c -> (j < J)%nat ->
+           nth j (ic_flag_j c) false = true -> In (N + M + j)%nat L)
+  }.
+
+  Lemma RInv_init ps : RInv (init_d I) (rgu_fresh I ps rm_m rm_j g0).
+  Proof.
+    destruct (rgu_fresh_spec I ps rm_m rm_j g0) as (E1 & E2 & E3 & _ & Hic).
+    set (u := rgu_fresh I ps rm_m rm_j g0) in *.
+    constructor; [exact E1|exact E2| |].
+    - intros Ho. destruct (Hic Ho) as (c & Hc & Hok & Hm & Hj). exists c.
+      split; [exact Hc|]. split; [exact Hm|]. split; [exact Hj|apply ic_inv_init; exact Hok].
+    - exists []. split; [exact E3|]. split; [intros n []|]. split; [rewrite completed_init; intros k []|].
+      split.
+      + intros -> _ c m Hc Hm Hf. exfalso. destruct (Hic eq_refl) as (c' & Hc' & [Hok _] & Hm' & _).
+        unfold has_ic in Hc. rewrite Hc' in Hc. inversion Hc; subst c'.
+        destruct (Hok (Hm' eq_refl)) as [_ Ef]. rewrite Ef, nth_repeat_default in Hf. discriminate.
+      + intros -> _ c j Hc Hj Hf. exfalso.
+        destruct (Hic (orb_true_r _)) as (c' & Hc' & [_ Hok] & _ & Hj').
+        unfold has_ic in Hc. rewrite Hc' in Hc. inversion Hc; subst c'.
+        destruct (Hok (Hj' eq_refl)) as [_ Ef]. rewrite Ef, nth_repeat_default in Hf. discriminate.
+  Qed.
+
+  Lemma RInv_step d u r x o row :
+    Inv I d -> accepted I d r x o row -> RInv d u ->
+    RInv (apply_sop I d x row) (rgu_update I fs (apply_sop I d x row) x u).
+  Proof.
+    intros Hi Ha [R1 R2 R3 (L & EL & HJ & HC & HM & HJb)].
+    assert (Hv : valid I) by exact (proj1 Hsc).
+    pose proof (Inv_apply_sop I d r x o row Hv Hi Ha) as Hi'.
+    set (d' := apply_sop I d x row) in *.
+    pose proof (gwf_g0 _ _ _ Hb) as Hw0.
+    destruct (fold_char L g0 Hw0) as (Hw & Hst & _). rewrite <- EL in Hw, Hst.
+    pose proof (rgu_update_graph I fs d' x u Hw) as EG.
+    (* the observer the updater reads, after this round *)
+    assert (Hic' : rm_m || rm_j = true ->
+              exists c, has_ic u c /\ has_ic (rgu_update I fs d' x u) (ic_update I x c) /\
+                        (rm_m = true -> ic_m c = true) /\ (rm_j = true -> ic_j c = true) /\
+                        ic_inv I d' (ic_update I x c)).
+    { intros Ho. destruct (R3 Ho) as (c & Hc & Hm & Hj & Hinv). exists c. split; [exact Hc|].
+      split; [unfold has_ic; cbn [rgu_update u_deps u_ic]; apply rgu_iscomp_map; exact Hc|].
+      split; [exact Hm|]. split; [exact Hj|]. eapply ic_inv_step; eauto. }
+    constructor; [exact R1|exact R2| |].
+    - intros Ho. destruct (Hic' Ho) as (c & _ & Hc' & Hm & Hj & Hinv). exists (ic_update I x c).
+      split; [exact Hc'|]. split; [exact Hm|]. split; [exact Hj|exact Hinv].
+    - exists (L ++ targets I fs d' x u). split; [rewrite fold_left_app, <- EL; exact EG|].
+      (* what the targets are *)
+      unfold targets. rewrite (type_row_static _ _ NMachine Hst), (type_row_static _ _ NJob Hst).
+      rewrite (rowM _ _ _ Hb), (rowJ _ _ _ Hb), R1, R2.
+      set (c' := rgu_iscomp (map (dep_update I x) (u_deps u)) (u_ic u)).
+      set (TM := if rm_m && nonempty (if (b =? 0)%nat then [] else machine_nodes I)
+                 then match c' with
+                      | Some c => flagged_ids (if (b =? 0)%nat then [] else machine_nodes I)
+                                              is_machine_node (ic_flag_m c)
+                      | None => [] end else []).
+      set (TJ := if rm_j && nonempty (if (b <? 2)%nat then [] else job_nodes I)
+                 then match c' with
+                      | Some c => flagged_ids (if (b <? 2)%nat then [] else job_nodes I)
+                                              is_job_node (ic_flag_j c)
+                      | None => [] end else []).
+      assert (HTM : forall n, In n TM <->
+                 rm_m = true /\ (1 <= b)%nat /\ exists c m, c' = Some c /\ (m < length (ic_flag_m c))%nat /\
+                   (m < M)%nat /\ nth m (ic_flag_m c) false = true /\ n = (N + m)%nat).
+      { intros n. unfold TM. destruct rm_m; [|simpl; split; [intros []|intros [Hf _]; discriminate]].
+        destruct (b =? 0)%nat eqn:Eb; [apply Nat.eqb_eq in Eb; simpl; split; [intros []|intros (_ & Hf & _); lia]|].
+        apply Nat.eqb_neq in Eb. simpl.
+        destruct (machine_nodes I) as [|mn mt] eqn:Emn.
+        - simpl. split; [intros []|]. intros (_ & _ & c & m & _ & _ & Hm & _).
+          pose proof (length_machine_nodes I) as Hl. rewrite Emn in Hl. simpl in Hl. unfold M in Hm. lia.
+        - simpl. rewrite <- Emn. destruct c' as [c|].
+          + rewrite In_flagged_ids. split.
+            * intros (m & Hm & Hf & Hg). split; [reflexivity|]. split; [lia|]. exists c, m.
+              split; [reflexivity|]. split; [exact Hm|].
+              destruct (Nat.lt_ge_cases m (num_machines I)) as [Hlt|Hge].
+              -- rewrite get_machine_node_spec in Hg by exact Hlt. inversion Hg. auto.
+              -- exfalso. unfold get_group_node in Hg.
+                 rewrite (proj2 (nth_error_None _ _)) in Hg by (rewrite length_machine_nodes; exact Hge).
+                 destruct (find (fun x0 => is_machine_node m (snd x0)) (machine_nodes I)) as [y|] eqn:Ef;
+                   [|discriminate].
+                 apply find_some in Ef. destruct Ef as [Hy Hmy]. unfold machine_nodes in Hy.
+                 apply in_map_iff in Hy. destruct Hy as (m' & <- & Hm'). apply in_seq in Hm'. simpl in Hmy.
+                 apply Nat.eqb_eq in Hmy. lia.
+            * intros (_ & _ & c0 & m & Ec & Hm & HmM & Hf & ->). inversion Ec; subst c0.
+              exists m. split; [exact Hm|]. split; [exact Hf|]. apply get_machine_node_spec. exact HmM.
+          + split; [intros []|]. intros (_ & _ & c & m & Ec & _). discriminate. }
+      assert (HTJ : forall n, In n TJ <->
+                 rm_j = true /\ (2 <= b)%nat /\ exists c j, c' = Some c /\ (j < length (ic_flag_j c))%nat /\
+                   (j < J)%nat /\ nth j (ic_flag_j c) false = true /\ n = (N + M + j)%nat).
+      { intros n. unfold TJ. destruct rm_j; [|simpl; split; [intros []|intros [Hf _]; discriminate]].
+        destruct (b <? 2)%nat eqn:Eb; [apply Nat.ltb_lt in Eb; simpl; split; [intros []|intros (_ & Hf & _); lia]|].
+        apply Nat.ltb_ge in Eb. simpl.
+        destruct (job_nodes I) as [|mn mt] eqn:Emn.
+        - simpl. split; [intros []|]. intros (_ & _ & c & j & _ & _ & Hj & _).
+          pose proof (length_job_nodes I) as Hl. rewrite Emn in Hl. simpl in Hl. unfold J in Hj. lia.
+        - simpl. rewrite <- Emn. destruct c' as [c|].
+          + rewrite In_flagged_ids. split.
+            * intros (j & Hj & Hf & Hg). split; [reflexivity|]. split; [lia|]. exists c, j.
+              split; [reflexivity|]. split; [exact Hj|].
+              destruct (Nat.lt_ge_cases j (num_jobs I)) as [Hlt|Hge].
+              -- rewrite get_job_node_spec in Hg by exact Hlt. inversion Hg. auto.
+              -- exfalso. unfold get_group_node in Hg.
+                 rewrite (proj2 (nth_error_None _ _)) in Hg by (rewrite length_job_nodes; exact Hge).
+                 destruct (find (fun x0 => is_job_node j (snd x0)) (job_nodes I)) as [y|] eqn:Ef;
+                   [|discriminate].
+                 apply find_some in Ef. destruct Ef as [Hy Hmy]. unfold job_nodes in Hy.
+                 apply in_map_iff in Hy. destruct Hy as (j' & <- & Hj'). apply in_seq in Hj'. simpl in Hmy.
+                 apply Nat.eqb_eq in Hmy. lia.
+            * intros (_ & _ & c0 & j & Ec & Hj & HjJ & Hf & ->). inversion Ec; subst c0.
+              exists j. split; [exact Hj|]. split; [exact Hf|]. apply get_job_node_spec. exact HjJ.
+          + split; [intros []|]. intros (_ & _ & c & j & Ec & _). discriminate. }
+      clearbody TM TJ.
+      assert (Hc'eq : forall c, rm_m || rm_j = true -> c' = Some c ->
+                 exists c0, c = ic_update I x c0 /\ ic_inv I d' c /\
+                            (rm_m = true -> ic_m c = true) /\ (rm_j = true -> ic_j c = true)).
+      { intros c Ho Ec. destruct (Hic' Ho) as (c0 & _ & Hc0 & Hm & Hj & Hinv).
+        unfold has_ic in Hc0. cbn [rgu_update u_deps u_ic] in Hc0. fold c' in Hc0. rewrite Ec in Hc0.
+        inversion Hc0; subst c. exists c0. split; [reflexivity|]. split; [exact Hinv|].
+        split; [exact Hm|exact Hj]. }
+      split; [|split; [|split]].
+      + (* every target is justified *)
+        intros n Hn. apply in_app_iff in Hn. destruct Hn as [Hn|Hn].
+        { eapply justified_mono; [|apply HJ; exact Hn]. eapply jnext_mono; eauto. }
+        apply in_app_iff in Hn. destruct Hn as [Hn|Hn]; [|apply in_app_iff in Hn; destruct Hn as [Hn|Hn]].
+        * apply in_map_iff in Hn. destruct Hn as ([j p] & <- & Hk).
+          apply In_p_completed_sched, In_p_sched in Hk. destruct Hk as [[o' Ho'] Hp].
+          left. exists j, p, o'. auto.
+        * apply HTM in Hn. destruct Hn as (-> & H1 & c & m & Ec & Hml & HmM & Hf & ->).
+          destruct (Hc'eq c eq_refl Ec) as (c0 & _ & Hinv & Hicm & _).
+          destruct (ii_m _ _ _ Hinv (Hicm eq_refl)) as (_ & _ & Hall).
+          destruct (Hall m HmM) as [_ Hfl]. apply Hfl in Hf. destruct Hf as [H0 _].
+          right. left. split; [exact H1|]. exists m. split; [exact HmM|]. split; [reflexivity|].
+          intros j p Hu. apply (unsched_key_In I d' j p Hi') in Hu.
+          unfold cntM in H0. rewrite count_keys_zero in H0. apply H0. exact Hu.
+        * apply HTJ in Hn. destruct Hn as (-> & H2 & c & j & Ec & Hjl & HjJ & Hf & ->).
+          destruct (Hc'eq c (orb_true_r _) Ec) as (c0 & _ & Hinv & _ & Hicj).
+          destruct (ii_j _ _ _ Hinv (Hicj eq_refl)) as (_ & _ & Hall).
+          destruct (Hall j HjJ) as [_ Hfl]. apply Hfl in Hf. destruct Hf as [H0 _].
+          right. right. split; [exact H2|]. exists j. split; [exact HjJ|]. split; [reflexivity|].
+          intros p Hu. apply (unsched_key_In I d' j p Hi') in Hu.
+          unfold cntJ in H0. rewrite count_keys_zero in H0. specialize (H0 _ Hu).
+          unfold in_job in H0. simpl in H0. rewrite Nat.eqb_refl in H0. discriminate.
+      + intros k Hk. apply in_app_iff. right. apply in_app_iff. left. apply in_map. exact Hk.
+      + intros -> H1 c m Hc Hm Hf. apply in_app_iff. right. apply in_app_iff. right. apply in_app_iff. left.
+        unfold has_ic in Hc. cbn [rgu_update u_deps u_ic] in Hc. fold c' in Hc.
+        apply HTM. split; [reflexivity|]. split; [exact H1|]. exists c, m. split; [exact Hc|].
+        destruct (Hc'eq c eq_refl Hc) as (c0 & _ & Hinv & Hicm & _).
+        destruct (ii_m _ _ _ Hinv (Hicm eq_refl)) as (_ & Hl & _). unfold M in Hm. rewrite Hl. auto.
+      + intros -> H2 c j Hc Hj Hf. apply in_app_iff. right. apply in_app_iff. right. apply in_app_iff. right.
+        unfold has_ic in Hc. cbn [rgu_update u_deps u_ic] in Hc. fold c' in Hc.
+        apply HTJ. split; [reflexivity|]. split; [exact H2|]. exists c, j. split; [exact Hc|].
+        destruct (Hc'eq c (orb_true_r _) Hc) as (c0 & _ & Hinv & _ & Hicj).
+        destruct (ii_j _ _ _ Hinv (Hicj eq_refl)) as (_ & Hl & _). unfold J in Hj. rewrite Hl. auto.
+  Qed.
+
+  (** Every world reachable from the fresh one by a request list. *)
+  Theorem rgu_run rs : forall d u, Inv I d -> RInv d u ->
+    exists d' u', run_from rgu rgu_update I (rg_world fs d u) rs = rg_world fs d' u' /\
+                  d' = fold_left (apply_req I) rs d /\ Inv I d' /\ RInv d' u'.
+  Proof.
+    assert (Hv : valid I) by exact (proj1 Hsc).
+    induction rs as [|r t IH]; intros d u Hi Hr.
+    - exists d, u. split; [reflexivity|split; [reflexivity|split; assumption]].
+    - unfold run_from in *. simpl. rewrite rg_step.
+      destruct (sop_of_request I d r) as [x|] eqn:E.
+      + assert (H1 : apply_req I d r = apply_sop I d x (row_of d x)) by (unfold apply_req; rewrite E; reflexivity).
+        rewrite H1. destruct (sop_of_request_accepted I d r x E) as (o & Ha).
+        apply IH; [eapply Inv_apply_sop; eauto|eapply RInv_step; eauto].
+      + assert (H1 : apply_req I d r = d) by (unfold apply_req; rewrite E; reflexivity).
+        rewrite H1. apply IH; assumption.
+  Qed.
+End Run.
+
+(** ** The clauses *)
+
+Lemma is_rm_rmd g n : is_rm g n = true -> rmd g n = true.
+Proof.
+  unfold is_rm, rmd. intros H. destruct (Nat.lt_ge_cases n (length (g_removed g))) as [Hl|Hg].
+  - rewrite (nth_indep _ true false Hl). exact H.
+  - rewrite nth_overflow in H by exact Hg. discriminate.
+Qed.
+Lemma rmd_is_rm g n : (n < length (g_removed g))%nat -> rmd g n = true -> is_rm g n = true.
+Proof. unfold is_rm, rmd. intros Hl H. rewrite (nth_indep _ false true Hl). exact H. Qed.
+
+Lemma nodes_kinds I b x : (b <= 3)%nat -> In x (spec_nodes b I) ->
+  match snd x with
+  | OpNode j p => (exists o, get_op I j p = Some o) /\ fst x = op_id I j p
+  | MachineNode m => (1 <= b)%nat /\ (m < num_machines I)%nat /\ fst x = (num_ops I + m)%nat
+  | JobNode j => (2 <= b)%nat /\ (j < num_jobs I)%nat /\ fst x = (num_ops I + num_machines I + j)%nat
+  | GlobalNode => b = 3%nat /\ fst x = (num_ops I + num_machines I + num_jobs I)%nat
+  | SourceNode => b = 0%nat /\ fst x = num_ops I
+  | SinkNode => b = 0%nat /\ fst x = S (num_ops I)
+  end.
+Proof.
+  intros Hle Hin.
+  assert (Hop : In x (op_nodes I) -> match snd x with
+            | OpNode j p => (exists o, get_op I j p = Some o) /\ fst x = op_id I j p | _ => False end).
+  { intros H. unfold op_nodes in H. apply in_map_iff in H. destruct H as ([j p] & <- & Hk).
+    simpl. split; [apply In_all_keys; exact Hk|reflexivity]. }
+  assert (Hm : In x (machine_nodes I) -> match snd x with
+            | MachineNode m => (m < num_machines I)%nat /\ fst x = (num_ops I + m)%nat | _ => False end).
+  { intros H. unfold machine_nodes in H. apply in_map_iff in H. destruct H as (m & <- & Hk).
+    apply in_seq in Hk. simpl. split; [lia|reflexivity]. }
+  assert (Hj : In x (job_nodes I) -> match snd x with
+            | JobNode j => (j < num_jobs I)%nat /\ fst x = (num_ops I + num_machines I + j)%nat | _ => False end).
+  { intros H. unfold job_nodes in H. apply in_map_iff in H. destruct H as (m & <- & Hk).
+    apply in_seq in Hk. simpl. split; [lia|reflexivity]. }
+  destruct b as [|[|[|[|?]]]]; try lia; simpl in Hin.
+  - unfold nodes_disjunctive in Hin. apply in_app_iff in Hin. destruct Hin as [H|[<-|[<-|[]]]]; simpl; auto.
+    apply Hop in H. destruct (snd x); tauto.
+  - unfold nodes_agent_task in Hin. apply in_app_iff in Hin. destruct Hin as [H|H].
+    + apply Hop in H. destruct (snd x); tauto.
+    + apply Hm in H. destruct (snd x); try tauto. split; [lia|tauto].
+  - unfold nodes_with_jobs in Hin. apply in_app_iff in Hin. destruct Hin as [H|H];
+      [|apply in_app_iff in H; destruct H as [H|H]].
+    + apply Hop in H. destruct (snd x); tauto.
+    + apply Hm in H. destruct (snd x); try tauto. split; [lia|tauto].
+    + apply Hj in H. destruct (snd x); try tauto. split; [lia|tauto].
+  - unfold nodes_complete in Hin. apply in_app_iff in Hin. destruct Hin as [H|H];
+      [|apply in_app_iff in H; destruct H as [H|H]; [|apply in_app_iff in H; destruct H as [H|[<-|[]]]]].
+    + apply Hop in H. destruct (snd x); tauto.
+    + apply Hm in H. destruct (snd x); try tauto. split; [lia|tauto].
+    + apply Hj in H. destruct (snd x); try tauto. split; [lia|tauto].
+    + simpl. split; reflexivity.
+Qed.
+
+(** nothing is running when everything is scheduled *)
+Lemma raw_ready_all_scheduled (I : instance) : forall j0 nx,
+  (forall i, (i < length I)%nat -> nth i nx 0%nat = length (nth i I [])) ->
+  raw_ready_from I j0 nx = [].
+Proof.
+  induction I as [|job t IH]; intros j0 nx H; [reflexivity|].
+  destruct nx as [|p nx']; [reflexivity|]. simpl.
+  pose proof (H 0%nat ltac:(simpl; lia)) as H0. simpl in H0. subst p. rewrite Nat.ltb_irrefl.
+  apply IH. intros i Hi. apply (H (S i)). simpl. lia.
+Qed.
+
+Lemma apply_filters_nil I d fs : apply_filters I d fs [] = [].
+Proof.
+  unfold apply_filters. induction fs as [|f t IH]; simpl; [reflexivity|].
+  replace (apply_filter I d f []) with (@nil (nat * nat)); [exact IH|]. destruct f; reflexivity.
+Qed.
+
+Lemma flat_map_nil {A B} (f : A -> list B) l : (forall x, In x l -> f x = []) -> flat_map f l = [].
+Proof.
+  induction l as [|x t IH]; intros H; simpl; [reflexivity|].
+  rewrite (H x (or_introl eq_refl)), IH; [reflexivity|]. intros y Hy. apply H. right. exact Hy.
+Qed.
+
+Lemma ongoing_complete I fs d : Inv I d ->
+  (forall j, nthN (jnext d) j = length (get_job I j)) -> p_ongoing I fs d = [].
+Proof.
+  intros Hi Hall. unfold p_ongoing, p_now, p_avail, p_raw, raw_ready.
+  rewrite raw_ready_all_scheduled by (intros i _; apply Hall).
+  rewrite apply_filters_nil. simpl min_start_time.
+  rewrite (makespan_derived I d Hi). unfold ongoing_at. apply flat_map_nil. intros row Hrow.
+  destruct (rev row) as [|y r] eqn:Er; [reflexivity|]. simpl.
+  assert (Hy : In y row) by (apply in_rev; rewrite Er; left; reflexivity).
+  assert (Hle : s_end I y <= sp_makespan I (sched d)).
+  { unfold sp_makespan. apply maxZ0_ge. apply in_map. unfold all_sops. apply in_concat. exists row; auto. }
+  apply Z.leb_le in Hle. rewrite Hle. reflexivity.
+Qed.
+
+Section Clauses.
+  Variable I : instance.
+  Variable b : nat.
+  Variable g0 : graph.
+  Hypothesis Hsc : scope17 I b.
+  Hypothesis Hb : built I b g0.
+  Variable fs : list fname.
+  Variables rm_m rm_j : bool.
+  Variable d : dstate.
+  Variable u : rgu.
+  Hypothesis Hi : Inv I d.
+  Hypothesis Hr : RInv I b g0 fs rm_m rm_j d u.
+  Let N := num_ops I.
+  Let M := num_machines I.
+  Let J := num_jobs I.
+
+  Lemma N_le_nodes : (num_ops I <= length (spec_nodes b I))%nat.
+  Proof. rewrite (length_spec_nodes I b g0 Hb). destruct b as [|[|[|?]]]; lia. Qed.
+
+  Lemma graph_shape L : u_graph u = fold_left remove_if_present L g0 ->
+    gwf (u_graph u) /\ g_nodes (u_graph u) = spec_nodes b I /\
+    length (g_removed (u_graph u)) = length (spec_nodes b I).
+  Proof.
+    intros EL. destruct (fold_char L g0 (gwf_g0 _ _ _ Hb)) as (Hw & Hst & _). rewrite <- EL in Hw, Hst.
+    split; [exact Hw|]. destruct Hst as (_ & E2 & _ & _ & _ & E6).
+    split; [rewrite E2; apply (bt_nodes _ _ _ Hb)|]. rewrite (wf_len _ Hw), E6. apply (bt_next _ _ _ Hb).
+  Qed.
+
+  Theorem cl_no_dangling : no_dangling (u_graph u).
+  Proof.
+    destruct (r_graph _ _ _ _ _ _ _ _ Hr) as (L & EL & _). destruct (graph_shape L EL) as (Hw & _).
+    intros e He. apply (wf_edges _ Hw e He).
+  Qed.
+
+  Theorem cl_completed_removed : completed_removed I fs (u_graph u) d.
+  Proof.
+    destruct (r_graph _ _ _ _ _ _ _ _ Hr) as (L & EL & _ & HC & _).
+    destruct (graph_shape L EL) as (Hw & _ & Hlen).
+    intros k Hk. apply rmd_is_rm.
+    - rewrite Hlen. destruct k as [j p]. apply In_p_completed_sched, In_p_sched in Hk.
+      destruct Hk as [[o Ho] _]. pose proof (op_id_lt _ _ _ _ Ho). pose proof N_le_nodes. unfold kid. simpl. lia.
+    - rewrite EL. apply fold_targets_removed; [apply (gwf_g0 _ _ _ Hb)|apply HC; exact Hk].
+  Qed.
+
+  Lemma protected_not_removed v : protected I b d v -> is_rm (u_graph u) v = false.
+  Proof.
+    intros HP. destruct (r_graph _ _ _ _ _ _ _ _ Hr) as (L & EL & HJ & _).
+    destruct (is_rm (u_graph u) v) eqn:E; [|reflexivity]. apply is_rm_rmd in E.
+    rewrite EL, (protected_kept I b g0 Hb (proj1 (proj2 Hsc)) d L v HJ HP) in E. discriminate.
+  Qed.
+
+  Theorem cl_unscheduled_kept : unscheduled_kept I (u_graph u) d.
+  Proof.
+    intros [j p] Hk. apply protected_not_removed. left. exists j, p. split; [|reflexivity].
+    apply (unsched_key_In I d j p Hi). exact Hk.
+  Qed.
+
+  Theorem cl_group_nodes : group_nodes I (u_graph u) d.
+  Proof.
+    destruct (r_graph _ _ _ _ _ _ _ _ Hr) as (L & EL & _). destruct (graph_shape L EL) as (_ & En & _).
+    intros x Hx Hrm. rewrite En in Hx. pose proof (nodes_kinds I b x (bt_b _ _ _ Hb) Hx) as Hk.
+    destruct (snd x) as [j p|m|j| | |]; simpl; try exact Logic.I.
+    - destruct Hk as (H1 & Hm & Ex). intros [j p] Hin.
+      destruct (uses_machine I m (j, p)) eqn:Eu; [|reflexivity]. exfalso.
+      rewrite protected_not_removed in Hrm; [discriminate|].
+      right. right. left. split; [exact H1|]. exists m, j, p.
+      split; [apply (unsched_key_In I d j p Hi); exact Hin|]. split; [exact Eu|exact Ex].
+    - destruct Hk as (H2 & Hj & Ex). intros [j' p] Hin Ej. simpl in Ej. subst j'.
+      rewrite protected_not_removed in Hrm; [discriminate|].
+      right. right. right. split; [exact H2|]. exists j, p.
+      split; [apply (unsched_key_In I d j p Hi); exact Hin|exact Ex].
+  Qed.
+
+  (** the next dispatch only adds removals *)
+  Theorem cl_monotone_step x :
+    monotone (g_removed (u_graph u)) (g_removed (u_graph (rgu_update I fs (apply_sop I d x (row_of d x)) x u))).
+  Proof.
+    destruct (r_graph _ _ _ _ _ _ _ _ Hr) as (L & EL & _). destruct (graph_shape L EL) as (Hw & _ & Hlen).
+    rewrite (rgu_update_graph I fs _ x u Hw).
+    set (T := targets I fs (apply_sop I d x (row_of d x)) x u).
+    destruct (fold_char T (u_graph u) Hw) as (Hw' & Hst & _).
+    intros n Hn. change (is_rm (u_graph u) n = true) in Hn.
+    change (is_rm (fold_left remove_if_present T (u_graph u)) n = true).
+    assert (Hlt : (n < length (g_removed (u_graph u)))%nat).
+    { unfold is_rm in Hn. destruct (Nat.lt_ge_cases n (length (g_removed (u_graph u)))) as [Hl|Hg]; [exact Hl|].
+      rewrite nth_overflow in Hn by exact Hg. discriminate. }
+    apply rmd_is_rm.
+    - rewrite (wf_len _ Hw'). destruct Hst as (_ & _ & _ & _ & _ & ->). rewrite <- (wf_len _ Hw). exact Hlt.
+    - apply fold_monotone; [exact Hw|apply is_rm_rmd; exact Hn].
+  Qed.
+
+  (** *** everything removed at the end *)
+  Hypothesis Hm1 : rm_m = true.
+  Hypothesis Hj1 : rm_j = true.
+  Hypothesis Hused : every_machine_used I.
+  Hypothesis Hne : I <> [].
+  Hypothesis Hcomplete : complete I (sched d).
+
+  Lemma all_scheduled j : nthN (jnext d) j = length (get_job I j).
+  Proof. apply (proj1 (Inv_all_scheduled_iff I d Hi)). apply (Inv_complete_iff I d Hi). exact Hcomplete. Qed.
+
+  Lemma nothing_unscheduled : unscheduled_ops I d = [].
+  Proof.
+    destruct (unscheduled_ops I d) as [|[j p] t] eqn:E; [reflexivity|]. exfalso.
+    assert (H : In (j, p) (unscheduled_ops I d)) by (rewrite E; left; reflexivity).
+    apply (In_unscheduled I d j p Hi) in H. destruct H as [[o Ho] Hp].
+    pose proof (get_op_pos_lt _ _ _ _ Ho). rewrite all_scheduled in Hp. lia.
+  Qed.
+
+  Lemma everything_completed j p o : get_op I j p = Some o -> In (j, p) (p_completed I fs d).
+  Proof.
+    intros Ho. unfold p_completed. apply filter_In. split.
+    - unfold p_sched, scheduled_ops. apply In_scheduled_from. rewrite Nat.sub_0_r, (i_len_jn _ _ Hi).
+      pose proof (get_op_job_lt _ _ _ _ Ho). pose proof (get_op_pos_lt _ _ _ _ Ho).
+      pose proof (all_scheduled j) as Ha. unfold nthN, num_jobs, get_job in *. lia.
+    - rewrite (ongoing_complete I fs d Hi all_scheduled). reflexivity.
+  Qed.
+
+  Theorem cl_all_removed : all_removed (u_graph u).
+  Proof.
+    destruct (r_graph _ _ _ _ _ _ _ _ Hr) as (L & EL & _ & HC & HM & HJ).
+    destruct (graph_shape L EL) as (_ & En & Hlen).
+    destruct Hsc as (_ & _ & Hnej & _). pose proof (bt_b _ _ _ Hb) as Hle.
+    destruct (r_ic _ _ _ _ _ _ _ _ Hr ltac:(rewrite Hm1; reflexivity)) as (c & Hc & Hcm & Hcj & Hinv).
+    (* every ordinary node is a target *)
+    assert (HopsL : forall j p o, get_op I j p = Some o -> In (op_id I j p) L).
+    { intros j p o Ho. apply (HC (j, p)). eapply everything_completed; eauto. }
+    assert (HmL : (1 <= b)%nat -> forall m, (m < M)%nat -> In (N + m)%nat L).
+    { intros H1 m Hm. apply (HM Hm1 H1 c m Hc Hm).
+      destruct (ii_m _ _ _ Hinv (Hcm Hm1)) as (_ & _ & Hall). apply (Hall m Hm). split.
+      - unfold cntM. rewrite nothing_unscheduled. reflexivity.
+      - exact (Hused m Hm). }
+    assert (HjL : (2 <= b)%nat -> forall j, (j < J)%nat -> In (N + M + j)%nat L).
+    { intros H2 j Hj. apply (HJ Hj1 H2 c j Hc Hj).
+      destruct (ii_j _ _ _ Hinv (Hcj Hj1)) as (_ & _ & Hall). apply (Hall j Hj). split.
+      - unfold cntJ. rewrite nothing_unscheduled. reflexivity.
+      - pose proof (Hnej _ (get_job_In I j Hj)) as Hnn.
+        destruct (get_op_of_pos_lt I j 0) as [o Ho]; [destruct (get_job I j); [contradiction|simpl; lia]|].
+        exists (j, 0%nat). split; [apply In_all_keys; eauto|]. unfold in_job. simpl. apply Nat.eqb_refl. }
+    (* so every edge of the builder's graph has a removed endpoint *)
+    assert (Hedge : forall e, In e (g_edges g0) -> exists w, In w L /\ touches w e = true).
+    { intros [[u' v'] t] He. apply (bt_edges _ _ _ Hb) in He.
+      assert (Hop : forall w j p o, is_op I w j p o -> In w L) by (intros w j p o [Ho ->]; eauto).
+      assert (Tl : forall w, touches w (w, v', t) = true) by (intros w; apply touches_iff; left; reflexivity).
+      assert (Tr : forall w, touches w (u', w, t) = true) by (intros w; apply touches_iff; right; reflexivity).
+      destruct b as [|[|[|[|?]]]]; try lia; simpl in He.
+      - destruct He as [[_ [H|[H|H]]]|[_ [H _]]].
+        + destruct H as (j & p & o & o' & H1 & _). exists u'. split; [eapply Hop; eauto|apply Tl].
+        + destruct H as [_ (j & o & H1)]. exists v'. split; [eapply Hop; eauto|apply Tr].
+        + destruct H as [_ (j & p & o & H1 & _)]. exists u'. split; [eapply Hop; eauto|apply Tl].
+        + destruct H as (_ & j & p & o & j' & p' & o' & m & H1 & _). exists u'. split; [eapply Hop; eauto|apply Tl].
+      - destruct He as [_ [[H|H]|[H|H]]].
+        + destruct H as (j & p & o & m & H1 & _). exists u'. split; [eapply Hop; eauto|apply Tl].
+        + destruct H as (j & p & o & m & H1 & _). exists v'. split; [eapply Hop; eauto|apply Tr].
+        + destruct H as (m & m' & Hm & _ & _ & -> & _). exists (N + m)%nat. split; [apply HmL; [lia|exact Hm]|apply Tl].
+        + destruct H as (j & p & o & p' & o' & H1 & _). exists u'. split; [eapply Hop; eauto|apply Tl].
+      - destruct He as [_ [[H|H]|[H|[[H|H]|H]]]].
+        + destruct H as (j & p & o & m & H1 & _). exists u'. split; [eapply Hop; eauto|apply Tl].
+        + destruct H as (j & p & o & m & H1 & _). exists v'. split; [eapply Hop; eauto|apply Tr].
+        + destruct H as (m & m' & Hm & _ & _ & -> & _). exists (N + m)%nat. split; [apply HmL; [lia|exact Hm]|apply Tl].
+        + destruct H as (j & p & o & H1 & _). exists u'. split; [eapply Hop; eauto|apply Tl].
+        + destruct H as (j & p & o & H1 & _). exists v'. split; [eapply Hop; eauto|apply Tr].
+        + destruct H as (j & j' & Hj & _ & _ & -> & _). exists (N + M + j)%nat. split; [apply HjL; [lia|exact Hj]|apply Tl].
+      - destruct He as [_ [[H|H]|[[H|H]|[[H|H]|[H|H]]]]].
+        + destruct H as (j & p & o & m & H1 & _). exists u'. split; [eapply Hop; eauto|apply Tl].
+        + destruct H as (j & p & o & m & H1 & _). exists v'. split; [eapply Hop; eauto|apply Tr].
+        + destruct H as (j & p & o & H1 & _). exists u'. split; [eapply Hop; eauto|apply Tl].
+        + destruct H as (j & p & o & H1 & _). exists v'. split; [eapply Hop; eauto|apply Tr].
+        + destruct H as (m & Hm & -> & _). exists (N + m)%nat. split; [apply HmL; [lia|exact Hm]|apply Tl].
+        + destruct H as (m & Hm & -> & _). exists (N + m)%nat. split; [apply HmL; [lia|exact Hm]|apply Tr].
+        + destruct H as (j & Hj & -> & _). exists (N + M + j)%nat. split; [apply HjL; [lia|exact Hj]|apply Tl].
+        + destruct H as (j & Hj & -> & _). exists (N + M + j)%nat. split; [apply HjL; [lia|exact Hj]|apply Tr]. }
+    pose proof (gwf_g0 _ _ _ Hb) as Hw0. destruct (fold_char L g0 Hw0) as (_ & _ & EE & R).
+    (* at least one removal happened: the first operation of the first job *)
+    assert (Hcalled : exists w, In w L /\ rmd g0 w = false).
+    { assert (Hex : exists job t, I = job :: t) by (clear -Hne; destruct I; [contradiction|eauto]).
+      destruct Hex as (job & t & EI).
+      assert (Hjob : In job I) by (rewrite EI; left; reflexivity).
+      pose proof (Hnej _ Hjob) as Hnn. destruct job as [|o job']; [contradiction|].
+      assert (Ho : get_op I 0 0 = Some o) by (rewrite EI; reflexivity).
+      exists (op_id I 0 0). split; [eapply HopsL; eauto|]. apply (rmd_g0 _ _ _ Hb).
+      pose proof (op_id_lt _ _ _ _ Ho). pose proof N_le_nodes. lia. }
+    intros x Hx. rewrite En in Hx. apply rmd_is_rm.
+    - rewrite Hlen. pose proof (nodes_kinds I b x Hle Hx) as Hk. rewrite (length_spec_nodes I b g0 Hb).
+      destruct (snd x) as [j p|m|j| | |].
+      + destruct Hk as [[o Ho] ->]. pose proof (op_id_lt _ _ _ _ Ho). destruct b as [|[|[|?]]]; lia.
+      + destruct Hk as (H1 & Hm & ->). destruct b as [|[|[|?]]]; lia.
+      + destruct Hk as (H2 & Hj & ->). destruct b as [|[|[|?]]]; lia.
+      + destruct Hk as [-> ->]. lia.
+      + destruct Hk as [-> ->]. lia.
+      + destruct Hk as [-> ->]. lia.
+    - rewrite EL. apply R. right. split; [exact Hcalled|]. right.
+      intros e He. rewrite EE in He. apply filter_In in He. destruct He as [He Hav]. exfalso.
+      destruct (Hedge e He) as (w & Hw & Ht). unfold avoid in Hav. apply negb_true_iff in Hav.
+      assert (existsb (fun u0 => touches u0 e) L = true) by (apply existsb_exists; exists w; auto). congruence.
+  Qed.
+End Clauses.
+
+(** ** From the fresh world, any request list *)
+
+Definition c17_run (I : instance) (fs : list fname) (ps : list pre) (rm_m rm_j : bool) (g0 : graph)
+           (rs : list request) : world rgu :=
+  run_from rgu rgu_update I (rg_world fs (init_d I) (rgu_fresh I ps rm_m rm_j g0)) rs.
+
+Section Final.
+  Variable I : instance.
+  Variable b : nat.
+  Variable g0 : graph.
+  Hypothesis Hsc : scope17 I b.
+  Hypothesis Hbuild : build_by_code b I = Some g0.
+  Variable fs : list fname.
+  Variable ps : list pre.
+  Variables rm_m rm_j : bool.
+
+  Let Hb : built I b g0 := build_built I b g0 Hsc Hbuild.
+
+  Lemma c17_reach rs :
+    exists d u, c17_run I fs ps rm_m rm_j g0 rs = rg_world fs d u /\
+                d = fold_left (apply_req I) rs (init_d I) /\ Inv I d /\ RInv I b g0 fs rm_m rm_j d u.
+  Proof. apply (rgu_run I b g0 Hsc Hb fs rm_m rm_j rs); [apply Inv_init|apply RInv_init; assumption]. Qed.
+
+  Lemma c17_clause (P : graph -> dstate -> Prop) :
+    (forall d u, Inv I d -> RInv I b g0 fs rm_m rm_j d u -> P (u_graph u) d) ->
+    forall rs, exists d u, c17_run I fs ps rm_m rm_j g0 rs = rg_world fs d u /\
+                           d = fold_left (apply_req I) rs (init_d I) /\ P (u_graph u) d.
+  Proof.
+    intros H rs. destruct (c17_reach rs) as (d & u & E1 & E2 & Hi & Hr). exists d, u.
+    split; [exact E1|]. split; [exact E2|apply H; assumption].
+  Qed.
+
+  Theorem f_completed_removed rs :
+    exists d u, c17_run I fs ps rm_m rm_j g0 rs = rg_world fs d u /\
+                d = fold_left (apply_req I) rs (init_d I) /\ completed_removed I fs (u_graph u) d.
+  Proof.
+    apply (c17_clause (fun g d => completed_removed I fs g d)). intros d u Hi Hr.
+    eapply cl_completed_removed; eauto.
+  Qed.
+
+  Theorem f_unscheduled_kept rs :
+    exists d u, c17_run I fs ps rm_m rm_j g0 rs = rg_world fs d u /\
+                d = fold_left (apply_req I) rs (init_d I) /\ unscheduled_kept I (u_graph u) d.
+  Proof.
+    apply (c17_clause (fun g d => unscheduled_kept I g d)). intros d u Hi Hr.
+    eapply cl_unscheduled_kept; eauto.
+  Qed.
+
+  Theorem f_group_nodes rs :
+    exists d u, c17_run I fs ps rm_m rm_j g0 rs = rg_world fs d u /\
+                d = fold_left (apply_req I) rs (init_d I) /\ group_nodes I (u_graph u) d.
+  Proof.
+    apply (c17_clause (fun g d => group_nodes I g d)). intros d u Hi Hr. eapply cl_group_nodes; eauto.
+  Qed.
+
+  Theorem f_no_dangling rs :
+    exists d u, c17_run I fs ps rm_m rm_j g0 rs = rg_world fs d u /\
+                d = fold_left (apply_req I) rs (init_d I) /\ no_dangling (u_graph u).
+  Proof.
+    apply (c17_clause (fun g _ => no_dangling g)). intros d u Hi Hr. eapply cl_no_dangling; eauto.
+  Qed.
+
+  Lemma monotone_refl l : monotone l l.
+  Proof. intros n H. exact H. Qed.
+  Lemma monotone_trans a c e : monotone a c -> monotone c e -> monotone a e.
+  Proof. intros H1 H2 n H. apply H2, H1, H. Qed.
+
+  Lemma run_monotone rs' : forall d u, Inv I d -> RInv I b g0 fs rm_m rm_j d u ->
+    exists d' u', run_from rgu rgu_update I (rg_world fs d u) rs' = rg_world fs d' u' /\
+                  monotone (g_removed (u_graph u)) (g_removed (u_graph u')).
+  Proof.
+    assert (Hv : valid I) by exact (proj1 Hsc).
+    induction rs' as [|r t IH]; intros d u Hi Hr.
+    - exists d, u. split; [reflexivity|apply monotone_refl].
+    - unfold run_from in *. simpl. rewrite rg_step. destruct (sop_of_request I d r) as [x|] eqn:E.
+      + destruct (sop_of_request_accepted I d r x E) as (o & Ha).
+        destruct (IH _ _ (Inv_apply_sop I d r x o _ Hv Hi Ha)
+                     (RInv_step I b g0 Hsc Hb fs rm_m rm_j d u r x o _ Hi Ha Hr)) as (d' & u' & E' & Hm).
+        exists d', u'. split; [exact E'|]. eapply monotone_trans; [|exact Hm].
+        eapply cl_monotone_step; eauto.
+      + apply IH; assumption.
+  Qed.
+
+  Theorem f_monotone rs rs' :
+    exists d u d' u', c17_run I fs ps rm_m rm_j g0 rs = rg_world fs d u /\
+                      c17_run I fs ps rm_m rm_j g0 (rs ++ rs') = rg_world fs d' u' /\
+                      monotone (g_removed (u_graph u)) (g_removed (u_graph u')).
+  Proof.
+    destruct (c17_reach rs) as (d & u & E1 & _ & Hi & Hr).
+    destruct (run_monotone rs' d u Hi Hr) as (d' & u' & E' & Hm).
+    exists d, u, d', u'. split; [exact E1|]. split; [|exact Hm].
+    unfold c17_run, run_from in *. rewrite fold_left_app, E1. exact E'.
+  Qed.
+
+  Theorem f_all_removed rs :
+    rm_m = true -> rm_j = true -> every_machine_used I -> I <> [] ->
+    exists d u, c17_run I fs ps rm_m rm_j g0 rs = rg_world fs d u /\
+                d = fold_left (apply_req I) rs (init_d I) /\
+                (complete I (sched d) -> all_removed (u_graph u)).
+  Proof.
+    intros H1 H2 H3 H4. apply (c17_clause (fun g d => complete I (sched d) -> all_removed g)).
+    intros d u Hi Hr Hc. eapply cl_all_removed; eauto.
+  Qed.
+
+  (** the set of completed operations may be walked in any order *)
+  Theorem f_order_irrelevant rs l l' :
+    exists d u, c17_run I fs ps rm_m rm_j g0 rs = rg_world fs d u /\
+      (Permutation.Permutation l l' ->
+       remove_completed_operations I (u_graph u) l = remove_completed_operations I (u_graph u) l').
+  Proof.
+    destruct (c17_reach rs) as (d & u & E1 & _ & Hi & Hr). exists d, u. split; [exact E1|].
+    destruct (r_graph _ _ _ _ _ _ _ _ Hr) as (L & EL & _).
+    destruct (graph_shape I b g0 Hb u L EL) as (Hw & _). apply remove_completed_order_irrelevant. exact Hw.
+  Qed.
+
+  (** What the harness's oracle evaluates — the boolean clauses on the graph
+      "as observed" (node list, removed flags, edges) and on the dispatcher
+      state recomputed from the schedule rows — is true of every reachable
+      state of the model. *)
+  Theorem f_oracle rs :
+    exists d u, c17_run I fs ps rm_m rm_j g0 rs = rg_world fs d u /\
+      let g := observed_graph I (g_nodes (u_graph u)) (g_removed (u_graph u)) (g_edges (u_graph u)) in
+      let d' := dstate_of I (sched d) in
+      completed_removedb I fs g d' = true /\ unscheduled_keptb I g d' = true /\
+      group_nodesb I g d' = true /\ no_danglingb g = true.
+  Proof.
+    destruct (c17_reach rs) as (d & u & E1 & _ & Hi & Hr). exists d, u. split; [exact E1|]. cbv zeta.
+    rewrite (tracking_derived I d Hi).
+    split; [apply completed_removedb_spec; eapply cl_completed_removed; eauto|].
+    split; [apply unscheduled_keptb_spec; eapply cl_unscheduled_kept; eauto|].
+    split; [apply group_nodesb_spec; eapply cl_group_nodes; eauto|].
+    apply no_danglingb_spec. eapply cl_no_dangling; eauto.
+  Qed.
+End Final.
